@@ -81,7 +81,9 @@ def random_layout(rnd, nboxes, max_files):
 GEOMS = {
     2: [([0.0, 0.0], [0.25, 0.25]), ([-0.5, 1.25], [0.5, 0.25]), ([1.0, -2.0], [0.125, 0.5]),
         # index 3 (only where a check asks for it): numbers whose shortest repr needs 17 significant digits (1/24 = 0.041666666666666664)
-        ([0.1, -0.3], [1 / 24, 1 / 48])],
+        ([0.1, -0.3], [1 / 24, 1 / 48]),
+        # index 4 (only where a check asks for it, with header_digits): thirds, as index 4 in 3D
+        ([0.1, -0.3], [1 / 12, 1 / 12])],
     3: [([0.0, 0.0, 0.0], [0.25, 0.25, 0.25]), ([-0.5, 1.25, 2.0], [0.5, 0.25, 0.125]),
         ([1.0, -2.0, 0.5], [0.125, 0.5, 0.25]),
         ([0.1, -0.3, 1.7], [1 / 24, 1 / 48, 1 / 24]),
